@@ -381,7 +381,8 @@ SPECS["C08"] = CheckSpec(
          "with exactly the cache's current data (prefix part only once the socket speaks version 0) within "
          "refresh+expire+4*retry of simulated time; an execution of the search that reaches no further choice point (the "
          "client has stopped opening, querying and waiting) is a violation by itself, a failed open() or a query that "
-         "could not be sent must be followed by a sleep before the next attempt, and no execution may "
+         "could not be sent must be followed by a sleep before the next attempt, so must a No-Data error report "
+         "before the next query, and no execution may "
          "make 400 environment calls without consuming input, sending, or letting time advance",
     assumptions=_ENVX_ASSUME + ["bounded liveness from every reachable state under a finite menu, not LTL over "
                                 "arbitrary environments"],
